@@ -295,6 +295,15 @@ def explore(body, start, facts=None, removed_edges=(), removed_blocks=(), learn=
             pl = o.get("copy") or o.get("move")
             if ve is not None:
                 pk = place_key(rv["place"])
+                if pk not in vf:
+                    # `match &x { .. }`: the discriminant is read through a reference temporary; facts are keyed by the referent
+                    pp = rv["place"]
+                    if pp["p"] == ["*"]:
+                        d0 = body.single_def(pp["l"])
+                        if d0 and d0[2] == "assign" and d0[3]["k"] == "ref" and "*" not in d0[3]["place"]["p"]:
+                            pk2 = place_key(d0[3]["place"])
+                            if pk2 in vf:
+                                pk = pk2
                 if pk in vf:
                     outs = [(ve[vf[pk]], vf, bf)]
                 else:
